@@ -4,6 +4,9 @@ package checks
 
 import (
 	"encoding/json"
+	"errors"
+	"sync/atomic"
+	"time"
 
 	"verif/evid"
 )
@@ -17,4 +20,27 @@ var Registry = map[string]*Check{}
 
 func register(id string, run func(r *evid.Run), replay func(c json.RawMessage) string) {
 	Registry[id] = &Check{Run: run, Replay: replay}
+}
+
+// errCopyHangs: a Copy that did not return (for instance because it opened a fifo as if it were a file).
+var copyHangs atomic.Int64
+
+var errCopyHangs = errors.New("verif: Copy did not return within 60s")
+
+// boundedCopy runs one Copy call; a call that does not come back is reported instead of hanging the check (its
+// goroutine is left behind, blocked).
+func boundedCopy(f func() error) error {
+	done := make(chan error, 1)
+	go func() { done <- f() }()
+	limit := 60 * time.Second
+	if copyHangs.Load() > 0 {
+		limit = 3 * time.Second // the verdict is already a violation; do not spend a minute on every further case
+	}
+	select {
+	case err := <-done:
+		return err
+	case <-time.After(limit):
+		copyHangs.Add(1)
+		return errCopyHangs
+	}
 }
